@@ -9,28 +9,28 @@ VERIF = os.path.dirname(os.path.dirname(os.path.abspath(__file__)))
 CLAIMED = {
     "C04": {
         "category": "fault_enumeration",
-        "text": "For every generated program (functions, methods, lambdas with 0..3 parameters; locals before/inside/after tries; assignments; captured variables; for/while loops; tries nested to depth 3 with class filters; handlers containing fault points; exits by completion, break, continue, return through several tries; callbacks run by native iterators incl. the lazy for protocol) every dynamic fault point (up to 40; through a helper call or inline in the frame of the try) is enumerated with error kinds: raise of Error / user subclass, IndexError, RuntimeError, PropertyError from the interpreter, stack overflow by unbounded recursion, and IoError produced by a simulator-injected failure of the n-th file system read. An executable model of the IR gives the expected handler and the expected value of every variable in scope; GC schedule and address policy vary per program.",
+        "text": "For every generated program (functions, methods, lambdas with 0..3 parameters; locals before/inside/after tries; assignments; captured variables; for/while loops; tries nested to depth 3 with one to three catch clauses and class filters; handlers containing fault points, closures over the catch variable and rendezvous with another fiber; a module-level handler that sometimes matches one class only (errors without any matching handler must end the program with a traceback and a failing status); exits by completion, break, continue, return through several tries; callbacks run by native iterators incl. the lazy for protocol) every dynamic fault point (up to 40; through a helper call or inline in the frame of the try) is enumerated with error kinds: raise of Error / user subclass, IndexError, RuntimeError, PropertyError from the interpreter, stack overflow by unbounded recursion, an operator applied to operands of the wrong type, and IoError produced by a simulator-injected failure of the n-th file system read. An executable model of the IR gives the expected handler and the expected value of every variable in scope; GC schedule and address policy vary per program.",
         "design_ref": "DESIGN.md section 3 C04",
-        "note": "Quick tier enumerates all points x 2 seeded kinds per program, thorough all 7 kinds. A program whose fault-free reference run itself fails is counted as invalid_workload. The model shares no code with Laythe.",
+        "note": "Quick tier enumerates all points x 2 seeded kinds per program, thorough all 8 kinds. A program whose fault-free reference run itself fails is counted as invalid_workload. The model shares no code with Laythe.",
         "technique": "deterministic simulation with fault injection: enumerated dynamic fault points x error kinds (incl. injected fs faults), executable IR model as oracle",
     },
     "C10": {
         "category": "exploration",
-        "text": "Generated mutation/observation histories over lists (initial lengths around the growth capacities), maps and instances through aliases in locals/parameters, module variables, fields, nested list elements, map keys, tuple elements, closure captures, channel buffers and parameters of other fibers (mutations and observations also performed by another fiber across context switches), under seeded GC schedules; every observation must equal a reference heap with immutable identities.",
+        "text": "Generated mutation/observation histories over lists (initial lengths around the growth capacities), maps and instances through aliases in locals/parameters, module variables, fields, nested list elements, map keys (also of a map with a few hundred entries: equal numbers such as 0 and -0 find the same entry), tuple elements, closure captures, channel buffers, live loop iterators, callee frames, tables collected by natives, and parameters of other fibers (mutations and observations also performed by another fiber across context switches); tuples and closures as identity-bearing keys, under seeded GC schedules; every observation must equal a reference heap with immutable identities.",
         "design_ref": "DESIGN.md section 3 C10",
         "note": "Exempt by construction (pinned known finding C10-forwarded-list-identity): identity observations on a list that has grown past its capacity when a side is read from a non-stack location. All content observations and all other identity observations are enforced.",
         "technique": "deterministic simulation: alias mutation histories incl. cross-fiber aliases under seeded GC schedules, reference-heap oracle",
     },
     "C17": {
         "category": "exploration",
-        "text": "Generated acyclic module graphs (1..6 files incl. packages nested up to three levels) live in the simulated file system; the main module imports them in every form (whole, renamed, selected symbols with renames, repeated, transitive), optionally while a user fiber is alive across the imports and with fibers inside module bodies; one module file may carry an injected read fault (not found / permission denied / invalid UTF-8); missing modules, non-exported and private names are requested on purpose. A module-graph model gives the expected marker order (first-import DFS, exactly once, before the importer continues), exported values, the private counter observable only through its export, and which runs must end with an ImportError before any later statement.",
+        "text": "Generated acyclic module graphs (1..6 files incl. packages nested up to three levels) live in the simulated file system; the main module imports them in every form (whole, renamed, selected symbols with renames, repeated, transitive), optionally while a user fiber (paced by rendezvous so that it completes at a seeded point) is alive across the imports and with fibers inside module bodies (synchronous or buffered channels); packages sharing leaf names; exported variables that the module reassigns later and exports holding nil (every import statement yields a snapshot of the exported values of that moment); one module file may carry an injected read fault (not found / permission denied / invalid UTF-8); missing modules, non-exported and private names are requested on purpose. A module-graph model gives the expected marker order (first-import DFS, exactly once, before the importer continues), exported values, the private counter observable only through its export, and which runs must end with an ImportError before any later statement.",
         "design_ref": "DESIGN.md section 3 C17",
         "note": "Imports are only legal at module scope (observed), so import failures cannot be caught; a parent package file is provided and run before a nested module as the shipped loader does.",
         "technique": "deterministic simulation: module graphs in a simulated fs with read faults and fibers alive across imports, module-graph model as oracle",
     },
     "C19": {
         "category": "exploration",
-        "text": "Generated prompt sessions (4..18 entries: lets, functions, classes, subclasses, instances, closures, functions with property/method/super sites called many entries later, module imports and calls into them, fibers within an entry, and failing entries of 9 kinds incl. failing imports) are fed through the scripted read_line seam under seeded GC schedules; stdout with prompts stripped must equal Vm::run on the concatenation of the successful entries; failing entries must produce diagnostics and leave the session usable; EOF is injected after every prefix (enumerated) and the cut session must print a prefix of the full session and exit 0.",
+        "text": "Generated prompt sessions (4..18 entries: lets, functions, classes, subclasses, instances, closures, functions with property/method/super sites called many entries later, module imports and calls into them, fibers within an entry and fibers launched by one entry and used by later ones, functions of later entries assigning to variables of earlier entries, entries whose definitions take effect before they raise, and failing entries of 9 kinds incl. failing imports) are fed through the scripted read_line seam under seeded GC schedules; stdout with prompts stripped must equal Vm::run on the concatenation of the successful entries; failing entries must produce diagnostics and leave the session usable; EOF is injected after every prefix (enumerated) and the cut session must print a prefix of the full session and exit 0.",
         "design_ref": "DESIGN.md section 3 C19",
         "note": "Failing entries are constructed to have no effect before they fail; fibers are started and joined within one entry.",
         "technique": "deterministic simulation: scripted stdin sessions with failing entries and EOF injected at every prefix, differential against one-file execution",
@@ -44,7 +44,7 @@ CLAIMED = {
     },
     "C07": {
         "category": "exploration",
-        "text": "Generated fiber/channel networks (sync and buffered channels, 1-5 fibers launched as functions, lambdas, methods and capturing closures, scripts of send/receive/close/drain/send-after-close; random, fan-in/out, backlog-at-close and ping-pong patterns) run on the real, unperturbed scheduler under seeded GC schedules and address policies. The recorded history (the program's own per-operation records) is judged by a history checker: nothing invented, duplicated, dropped or reordered per (sender, channel); len() never above capacity; a synchronous sender's post-send record never precedes the receipt; after close buffered values in order, then nil, sends raise; conservation sends == receipts + buffered at the end.",
+        "text": "Generated fiber/channel networks (sync and buffered channels, 1-5 fibers launched as functions, lambdas, methods and capturing closures, scripts of send/receive/close/drain/send-after-close; fibers launched by other fibers in the middle of their scripts; random, fan-in/out, backlog-at-close, ping-pong, count-balanced, early-wake (children completing while their parent sleeps on a channel) and stale-sender patterns) run on the real, unperturbed scheduler under seeded GC schedules and address policies. The recorded history (the program's own per-operation records) is judged by a history checker: nothing invented, duplicated, dropped or reordered per (sender, channel); len() never above capacity; a synchronous sender's post-send record never precedes the receipt; after close buffered values in order, then nil, sends raise; conservation sends == receipts + buffered at the end.",
         "design_ref": "DESIGN.md section 3 C07",
         "note": "Interleavings are those the shipped run queue produces for the generated network (the scheduler is the system under test and is not perturbed). Half of the networks send heap values (strings built at run time) that are reachable only through the channel while in flight, so a buffered or parked value that is freed or corrupted shows as a poisoned read. Verdict zone: a channel is closed only by a fiber that has itself sent to or received from it before the close (sends of other fibers into such a channel are guarded by try/catch); no channel operations in native callbacks (pinned known finding).",
         "technique": "deterministic simulation: generated process networks on the real scheduler, history checker over the recorded event sequence",
